@@ -91,12 +91,13 @@ def mk_layer(name, bases=(), su=0, td=0, hooks='stST', tsu=0, ttd=0, instance=Fa
             raise NotImplementedError
 
     def testSetUp(self=None):
-        ev('tsu', name, sys.stdout, sys.stderr)
+        # a class layer without its own hook inherits its base's: record the layer the hook was invoked on
+        ev('tsu', getattr(self, '__name__', None) or name, sys.stdout, sys.stderr)
         if tsu:
             raise Boom('tsu ' + name)
 
     def testTearDown(self=None):
-        ev('ttd', name, sys.stdout, sys.stderr)
+        ev('ttd', getattr(self, '__name__', None) or name, sys.stdout, sys.stderr)
         if ttd:
             raise Boom('ttd ' + name)
     ns = {}
